@@ -661,10 +661,10 @@ fn sink_op(a: &std::collections::HashMap<&str, &str>) -> String {
         let o = match (op.split_once(':'), &mut io) {
             (Some(("s", h)), Io::Sink(sink)) => match Pin::new(&mut *sink).poll_ready(&mut cx) {
                 Poll::Pending => "busy".to_string(),
-                Poll::Ready(Err(e)) => format!("err:{}", io_kind(e.kind())),
+                Poll::Ready(Err(e)) => format!("err:io:{}", io_kind(e.kind())),
                 Poll::Ready(Ok(())) => match Pin::new(&mut *sink).start_send(Bytes::from(unhx(h))) {
                     Ok(()) => "ok".to_string(),
-                    Err(e) => format!("err:{}", io_kind(e.kind())),
+                    Err(e) => format!("err:io:{}", io_kind(e.kind())),
                 },
             },
             (Some(("w", h)), Io::Reader(reader)) => {
